@@ -190,7 +190,8 @@ def render_item(it):
     if k in ("else", "endif"):
         return "`" + k
     if k == "use":
-        return "`" + it["n"] + render_args(it["a"])
+        # sp: white space between the macro name and its argument list (legal, 22.5.1)
+        return "`" + it["n"] + (" " if it.get("sp") and it["a"] else "") + render_args(it["a"])
     if k == "inc":
         if it["f"] == 0:
             return '`include "%s"' % it["n"]
